@@ -1151,6 +1151,10 @@ fn check_queries(ctx: &mut Ctx, spec: &CorpusSpec, b: &Built, qs: &[Q]) {
     let mcount = split(ctx.model.ask(&format!("C03 count {cl} {joined}")));
     // the named hypotheses of C03_compile_sound_partial, evaluated by the model on each query
     let mok = split(ctx.model.ask(&format!("C03 ok {joined}")));
+    // … and the hypotheses on the corpus (alive bitset covers the documents, positions increasing)
+    if ctx.model.ask(&format!("C03 wf {cl}")) != "1" {
+        ctx.report.violation("model", "C03:corpus-not-well-formed-for-the-theorems", "the analysed corpus violates Seg.wf / DocsWf (positions not increasing?)".into(), json!({"kind": "corpus", "corpus": spec}));
+    }
     let n_docs: usize = b.segs.iter().map(|s| s.len()).sum();
     let n_live = b.expected_live.len();
     let multi = b.segs.len() >= 2 || b.segs.iter().any(|s| s.iter().any(|d| !d.1));
